@@ -243,13 +243,14 @@ def evaluate_arpa(ctx, hexe, dexe, c01h, c01d, work, items, oracle_budget, tag="
             ctx.violation("loader model and C01 grammar accept the same bytes but produce different models (%s)" % kind,
                           {"stream": "loader-fuzz", "kind": kind, "model": m, "arpa": shown, "arpa_encoding": "latin-1"})
             found = True
-        if strict_ok and any_ok and oracle_left > 0 and feasible and it.get("queries"):
+        item_bad = any(real.get("%s.%s" % (jid, c), ("lost", {}))[0] in ("crash", "hang", "lost") for c in it["classes"])
+        if strict_ok and any_ok and oracle_left > 0 and feasible and it.get("queries") and not item_bad and len(ctx.violations) < 20:
             oracle_left -= 1
             ctx.hist(tag + ".oracle", "run")
             case2 = lmgen.Case()
             case2.arpa, case2.queries, case2.mult, case2.abits = data, it["queries"][:8], it["mult"], it.get("abits", 22)
             ops = lmq.make_ops(it["path"], case2)
-            (rc1, o1, e1), (rc2, o2, e2) = lmq.run_both(c01h, c01d, ops, timeout=120)
+            (rc1, o1, e1), (rc2, o2, e2) = lmq.run_both(c01h, c01d, ops, timeout=30)
             if rc1 != 0 or rc2 != 0 or not o1 or not o2:
                 ctx.violation("lm-query harness or driver died on an accepted ARPA mutant (%s; rc %s/%s)" % (kind, rc1, rc2),
                               {"stream": "loader-fuzz", "kind": kind, "arpa": shown, "arpa_encoding": "latin-1",
@@ -533,6 +534,7 @@ def replay(ctx, path):
                           key=KEY_SIZE_PARAMS if d.get("kind") in SIZE_PARAM_KINDS and mv in ("ok", "unknown-size") else None)
     else:
         log("  replay: %s holds no replayable input (truncated file or obligation-only record)" % path)
+    _cleanup()
     return ctx.finish(LEVEL)
 
 
@@ -544,7 +546,22 @@ def run(ctx):
     _run_streams(ctx, problems, consts, hexe, dexe, c01h, c01d)
 
 
+def _cleanup():
+    import glob
+    import shutil
+    from vlib.common import SCRATCH
+    for d in glob.glob(os.path.join(SCRATCH, "c10_*_%d" % os.getpid())):
+        shutil.rmtree(d, ignore_errors=True)
+
+
 def _run_streams(ctx, problems, consts, hexe, dexe, c01h, c01d):
+    try:
+        _run_streams0(ctx, problems, consts, hexe, dexe, c01h, c01d)
+    finally:
+        _cleanup()
+
+
+def _run_streams0(ctx, problems, consts, hexe, dexe, c01h, c01d):
     quick = ctx.tier == "quick"
     found = fixed_witnesses(ctx, hexe, dexe, consts)
     found |= blank_stream(ctx, hexe, dexe, c01h, c01d, 300 if quick else 3000)
